@@ -78,7 +78,8 @@ def cases(draw):
     o['profile'] = draw(st.sampled_from([False, False, True]))
     o['profile_rel'] = draw(st.booleans())      # default (relative) profile directory
     o['buffer'] = draw(st.booleans()) or ending == 'leaked-stream'
-    o['post_mortem'] = draw(st.sampled_from([False, False, False, True]))
+    # (the post-mortem loop is a second implementation of the per-test bracket: interrupts are drawn with it more often)
+    o['post_mortem'] = draw(st.sampled_from([False, True] if ending.startswith('kbd-') else [False, False, False, True]))
     o['warnings'] = draw(st.sampled_from([None, 'default', 'error', 'ignore', 'always']))
     o['stop'] = ending == 'stop-on-error' or draw(st.sampled_from([False, False, True]))
     if ending == 'stop-on-error':
